@@ -77,10 +77,7 @@ func c04OnAck(c *cluster, r *pubRec, o *ackObs) {
 		// configured minimum number of replicas hold it.
 		// (known finding, see C02: a follower that cannot reach its leader when it starts following truncates
 		// to its own stale high watermark and so drops messages it has already reported as replicated)
-		tag := ""
-		if h.logHits["Failed to fetch last offset for leader epoch"] > 0 {
-			tag = "/after-hw-fallback-truncation"
-		}
+		tag := h.fallbackTag(a.Offset)
 		have := 0
 		for id, v := range o.holders {
 			if v == r.value || v == "<down>" {
